@@ -29,6 +29,15 @@ pub const ATTR_NAME_POOL: &[&str] = &[
     "media-size",
     "x-dimension",
     "y-dimension",
+    // names that coincide with field names of the library's own structs, and case variants
+    "tag",
+    "attributes",
+    "name",
+    "value",
+    "groups",
+    "header",
+    "Copies",
+    "JOB-ID",
 ];
 
 /// Sizes: mostly small (many small cases beat few large ones), occasionally up to the rare maximum.
